@@ -41,13 +41,22 @@ k('C13', 'to-errors|Integer|fhir.canonical*|table=1', "toInteger() on a string t
 k('C13', 'to-errors|Integer|fhir.oid*|table=1', "toInteger() on a string that is not an integer returns the strconv error instead of empty (the error is asserted by the repository's TestToInteger, so it is recorded, not repaired); receiver class fhir.oid*", {'src': "'abc'.toInteger()", 'got': 'ERROR: strconv.ParseInt: parsing "abc": invalid syntax', 'want': '{}'})
 k('C13', 'to-errors|Integer|fhir.uuid*|table=1', "toInteger() on a string that is not an integer returns the strconv error instead of empty (the error is asserted by the repository's TestToInteger, so it is recorded, not repaired); receiver class fhir.uuid*", {'src': "'abc'.toInteger()", 'got': 'ERROR: strconv.ParseInt: parsing "abc": invalid syntax', 'want': '{}'})
 k('C13', 'to-errors|Integer|fhir.base64*|table=1', "toInteger() on a string that is not an integer returns the strconv error instead of empty (the error is asserted by the repository's TestToInteger, so it is recorded, not repaired); receiver class fhir.base64*", {'src': "'abc'.toInteger()", 'got': 'ERROR: strconv.ParseInt: parsing "abc": invalid syntax', 'want': '{}'})
-k('C13', 'table|Time|*str*|unconvertible-but-value', "toTime()/convertsToTime() accept strings that are not hh[:mm[:ss[.fff]]] with two-digit fields, e.g. '1'.toTime() = @T01 (time.Parse is lenient)", {'src': "'1'.toTime()", 'got': '@T01', 'want': '{}'})
-k('C13', 'table|Decimal|*str*|unconvertible-but-value', "toDecimal()/convertsToDecimal() accept exponent and bare-dot spellings that FHIRPath does not: '1e3'.toDecimal() = 1000, '0.'.toDecimal() = 0", {'src': "'1e3'.toDecimal()", 'got': '1000', 'want': '{}'})
-k('C13', 'table|DateTime|*str*|convertible-but-empty', "toDateTime() rejects partial date strings without a trailing T: '2020'.toDateTime() and '2020-01'.toDateTime() are empty", {'src': "'2020'.toDateTime()", 'got': '{}', 'want': '@2020T'})
-k('C13', 'table|DateTime|str.g.datetime|unconvertible-but-value', "toDateTime() accepts an out-of-range offset: '2020-01-15T10:30:15+15:00'", {'src': "'2020-01-15T10:30:15+15:00'.toDateTime()"})
-k('C13', 'table|Quantity|str.g.datetime|unconvertible-but-value', "toQuantity() accepts any letters as a calendar unit: '2020T'.toQuantity() = 2020 'T'", {'src': "'2020T'.toQuantity()"})
-k('C13', 'table|Quantity|str.g.quantity|unconvertible-but-value', "toQuantity() accepts an unquoted non-calendar unit: '5 mg'.toQuantity() = 5 'mg'", {'src': "'5 mg'.toQuantity()"})
-k('C13', 'table|Date|str.g.datetime|unconvertible-but-value', "toDate() accepts the literal prefix inside a string: '@2020'.toDate() = @2020", {'src': "'@2020'.toDate()"})
+k('C13', 'table|Time|*|unconvertible-but-value|shape=9', "toTime()/convertsToTime() accept a bare number of one or more digits as an hour: '1'.toTime() = @T01 (time.Parse is lenient about field widths)", {'src': "'1'.toTime()", 'got': '@T01', 'want': '{}'})
+k('C13', 'table|Time|*|unconvertible-but-value|shape=9:9', "same leniency with minutes: '1:30'.toTime() = @T01:30 (one-digit hour)", {'src': "'1:30'.toTime()", 'got': '@T01:30', 'want': '{}'})
+k('C13', 'table|Time|*|unconvertible-but-value|shape=@T9:9', "toTime() accepts the literal prefix inside a string: '@T10:30'.toTime() = @T10:30", {'src': "'@T10:30'.toTime()"})
+k('C13', 'table|Decimal|*|unconvertible-but-value|shape=*e9', "toDecimal()/convertsToDecimal() accept exponent spellings that FHIRPath does not: '1e3'.toDecimal() = 1000 (also with sign, fraction or bare dot before the exponent)", {'src': "'1e3'.toDecimal()", 'got': '1000', 'want': '{}'})
+k('C13', 'table|Decimal|*|unconvertible-but-value|shape=*9.', "toDecimal()/convertsToDecimal() accept a bare trailing dot: '0.'.toDecimal() = 0", {'src': "'0.'.toDecimal()", 'got': '0', 'want': '{}'})
+k('C13', 'table|DateTime|*|convertible-but-empty|shape=9', "toDateTime() rejects a year-only date string (no trailing T): '2020'.toDateTime() is empty", {'src': "'2020'.toDateTime()", 'got': '{}', 'want': '@2020T'})
+k('C13', 'table|DateTime|*|convertible-but-empty|shape=9-9', "toDateTime() rejects a year-month date string: '2020-01'.toDateTime() is empty", {'src': "'2020-01'.toDateTime()", 'got': '{}', 'want': '@2020-01T'})
+k('C13', 'table|DateTime|*|convertible-but-empty|shape=9-9-9', "toDateTime() rejects a full date string without a time: '2020-01-15'.toDateTime() is empty", {'src': "'2020-01-15'.toDateTime()", 'got': '{}', 'want': '@2020-01-15T'})
+k('C13', 'table|DateTime|str.g.datetime|unconvertible-but-value|shape=9-9-9T9:9:9+9:9', "toDateTime() accepts an out-of-range offset: '2020-01-15T10:30:15+15:00'", {'src': "'2020-01-15T10:30:15+15:00'.toDateTime()"})
+k('C13', 'table|DateTime|str.g.datetime|unconvertible-but-value|shape=9-9-9T9:9', "toDateTime() accepts a one-digit hour: '2020-01-15T1:30'", {'src': "'2020-01-15T1:30'.toDateTime()"})
+k('C13', 'table|DateTime|str.g.datetime|unconvertible-but-value|shape=@9-9-9T9:9:9Z', "toDateTime() accepts the literal prefix inside a string: '@2020-01-15T10:30:15Z'", {'src': "'@2020-01-15T10:30:15Z'.toDateTime()"})
+k('C13', 'table|Quantity|*|unconvertible-but-value|shape=9T', "toQuantity() accepts any letters after the number as a calendar unit: '2020T'.toQuantity() = 2020 'T'", {'src': "'2020T'.toQuantity()"})
+k('C13', 'table|Quantity|*|unconvertible-but-value|shape=9a', "same: '0x'.toQuantity() = 0 'x'", {'src': "'0x'.toQuantity()", 'got': "0 'x'", 'want': '{}'})
+k('C13', 'table|Quantity|*|unconvertible-but-value|shape=9 a', "toQuantity() accepts an unquoted non-calendar unit: '5 mg'.toQuantity() = 5 'mg'", {'src': "'5 mg'.toQuantity()"})
+k('C13', 'table|Date|str.g.datetime|unconvertible-but-value|shape=@9', "toDate() accepts the literal prefix inside a string: '@2020'.toDate() = @2020", {'src': "'@2020'.toDate()"})
+k('C13', 'table|Date|str.g.datetime|unconvertible-but-value|shape=@9-9-9', "same: '@2020-01-15'.toDate() = @2020-01-15", {'src': "'@2020-01-15'.toDate()"})
 k('C13', 'string-round-trip|Quantity|qty.1|empty', "a unit-less Quantity prints as '1 1', which toQuantity() does not parse back (unit neither quoted nor a word)", {'src': "(1 '1').toString().toQuantity()", 'got': '{}'})
 k('C13', 'convertsTo!=to.exists|String|fhir.complex|convertsTo=false,to=value', "toString() on a complex element returns Boolean false instead of empty (asserted by the repository's TestToString, so recorded, not repaired)", {'src': 'Patient.name.first().toString()', 'got': 'false', 'want': '{}'})
 k('C13', 'result-type|String|fhir.complex|got=Boolean', 'same defect: the result of toString() on a complex element is a Boolean', {'src': 'Patient.name.first().toString()'})
@@ -115,6 +124,5 @@ FIXED.append("fixed: property=C15 ac3e1cd a FHIR date element whose proto carrie
 FIXED.append("fixed: property=C02 bc4a80e `Patient.text.div.value` (the xhtml content of a narrative) failed with 'value can't be cast to system type: complex type *Xhtml', and with it children() of a Narrative and descendants() of any resource that has a narrative: Xhtml was missing from system.IsPrimitive and system.From; the C02 primitive-value stage had skipped Xhtml elements, the skip was removed when the contained-resource type tests of C12 ran into descendants()")
 k('C13', 'result-string-round-trip|Quantity|*qty.*unit*|empty|unit=', "a Quantity with the empty unit (literal 1 '', or a FHIR Quantity that has only a human-readable unit and no code) prints as the bare number, which reads back with unit '1' and is then not comparable with the original (empty-unit family, see string-round-trip|Quantity|qty.1)", {'src': "(1 '').toString().toQuantity() = (1 '')", 'got': '{}', 'want': 'true'})
 k('C13', 'string-round-trip|Quantity|*qty.*unit*|empty', "same defect seen through x.toString().toQuantity() = x for x a Quantity with the empty unit", {'src': "(1 '').toString().toQuantity() = (1 '')", 'got': '{}', 'want': 'true'})
-k('C13', 'table|Quantity|str.g.num.base|unconvertible-but-value', "same recorded defect as table|Quantity|str.g.datetime: toQuantity() accepts any letters after the number as a unit: '0x'.toQuantity() = 0 'x'", {'src': "'0x'.toQuantity()", 'got': "0 'x'", 'want': '{}'})
 if __name__ == '__main__':
     write()
